@@ -252,7 +252,7 @@ func first(a, _ []byte) []byte { return a }
 // allocation type; leafT() is the leaf type of the tree kind in question - node-level proofs
 // hold for every value of leafT()).
 //@ spec tyOf(k) = ite(k == 0, typeid(node4), ite(k == 1, typeid(node16), ite(k == 2, typeid(node48), ite(k == 3, typeid(node256), leafT()))))
-//@ spec okRef(r) = r.pointer != nil && inT(r.pointer) && !pooled(r.pointer) && r.tag <= 4 && atype(r.pointer) == tyOf(r.tag)
+//@ spec okRef(r) = r.pointer != nil && inT(r.pointer) && r.tag <= 4 && atype(r.pointer) == tyOf(r.tag)
 //@ spec okChild(n, r) = okRef(r) && r.pointer != n
 //@ spec Inv4(n) = n.childrenLen <= 4 && forall(i, 0, 3, implies(i+1 < n.childrenLen, lane(n.keys,i) < lane(n.keys,i+1))) && forall(i, 0, 3, implies(i >= n.childrenLen, lane(n.keys,i) >= lane(n.keys,i+1))) && forall(i, 0, 4, implies(i < n.childrenLen, okChild(n, n.children[i])))
 //@ spec Inv16(n) = n.childrenLen <= 16 && forall(i, 0, 15, implies(i+1 < n.childrenLen, n.keys[i] < n.keys[i+1])) && forall(i, 0, 16, implies(i < n.childrenLen, okChild(n, n.children[i])))
